@@ -1,0 +1,35 @@
+//go:build verif
+
+// Contracts for package gokaitai (Kaitai-generated readers), read by the govc verifier (/verif). Comments only.
+package gokaitai
+
+// vlqVal(v): the integer a parsed base-128 varint stands for (what Value() computes from its groups; assumed, generated code).
+//@ spec func vlqVal(v Ref) Int
+
+//@ func (*VlqBase128Le).Value
+//@   assumed
+//@   ensures r1 == nil ==> r0 == vlqVal(this)
+//@   ensures vlqVal(this) >= 0
+//@   modifies this._f_value, this.value, this._f_len, this.len
+
+// C20: the payload length the schema derives is the length the writer stored: nothing for nil records, the compressed length
+// in compressed files, the uncompressed length otherwise (FileWriter.Write puts exactly these two lengths and the nil flag
+// into the header and stores no payload for nil records, verified in package recordio under C20/C04).
+//@ spec func storedLen(r *RecordioV4_Record) Int = r.RecordNil == 1 ? 0 :
+//@      (r._root.FileHeader.CompressionType == 0 ? vlqVal(r.UncompressedPayloadLen) : vlqVal(r.CompressedPayloadLen))
+
+//@ func (*RecordioV4_Record).LenPayload
+//@   props C20
+//@   replay kaitai_roundtrip
+//@   bounded kaitai_roundtrip Kaitai reader vs. native reader: all record sequences of length <= 2 over 6 record kinds (nil, empty, 1 byte, marker bytes, 240 and 300 bytes) plus the full list, all 4 compression codes; record count, nil flags, stored payload decoded with the codec the schema names
+//@   requires this.UncompressedPayloadLen != nil && this.CompressedPayloadLen != nil && this._root != nil && this._root.FileHeader != nil
+//@   requires [memo-is-consistent] this._f_lenPayload ==> this.lenPayload == storedLen(this)
+//@   ensures [C20:length-the-writer-stored] r1 == nil ==> r0 == storedLen(this)
+//@   ensures [memo-is-consistent] this._f_lenPayload ==> this.lenPayload == storedLen(this)
+//@   modifies this._f_lenPayload, this.lenPayload, this.UncompressedPayloadLen._f_value, this.UncompressedPayloadLen.value, this.UncompressedPayloadLen._f_len,
+//@            this.UncompressedPayloadLen.len, this.CompressedPayloadLen._f_value, this.CompressedPayloadLen.value, this.CompressedPayloadLen._f_len, this.CompressedPayloadLen.len
+
+// the compression codes of the schema are the codes the writer emits (recordio.CompressionType*, same literals in package recordio)
+//@ lemma kaitai_compression_codes:
+//@   props C20
+//@   show RecordioV4_Compression__None == 0 && RecordioV4_Compression__Gzip == 1 && RecordioV4_Compression__Snappy == 2 && RecordioV4_Compression__Lzw == 3
